@@ -87,7 +87,7 @@ def apply_update(ctx: Ctx):
     step = f"self.step_update.update({pre}.runner_payload.s, {pre}.runner_payload.e)"
     want = f"{rp}._replace(s={step}[0], u=Update({pre}.updated_step_fns, {step}[1]))"
     ps = [p for p in flow.paths(fn.node) if p.kind == "return"]
-    ok = len(ps) == 1 and flow.dump(ps[0].value) == want
+    ok = flow.values_match(ps, want)
     ctx.check(ok, "D2", "DU.threading", "apply_update: next payload = (state from step_update.update on the pre-step result, Update(folded pre-step functions, updated StepSimulation))", fn,
               why_bad=f"returns {flow.dump(ps[0].value)[:400] if ps else '?'}", construct="apply_update:shape")
     af = repo.func(UPD, "_apply_fn")
@@ -96,7 +96,7 @@ def apply_update(ctx: Ctx):
     want = (f"{p0}._replace(runner_payload={p0}.runner_payload._replace(s={upd}[0]), "
             f"updated_step_fns={p0}.updated_step_fns + ({upd}[1],) if {upd}[1] else {p0}.updated_step_fns + ({f0},))")
     ps = [p for p in flow.paths(af.node) if p.kind == "return"]
-    ok = len(ps) == 1 and flow.dump(ps[0].value) == want
+    ok = flow.values_match(ps, want)
     ctx.check(ok, "D2", "DU.threading", "_apply_fn: applies the function to the accumulated state and keeps the updated function or the old one (never drops one)", af,
               why_bad=f"returns {flow.dump(ps[0].value)[:400] if ps else '?'}", construct="_apply_fn:shape")
     rules.rule_fold_threading(ctx, "D2", fn, 1)
@@ -166,7 +166,7 @@ def drivers(ctx: Ctx):
                   why_bad=f"returns {flow.dump(p.value)[:100]}, flush {[flow.dump(e.call)[:80] for e in fl]}", construct="_run_step:shape")
     outer = repo.func(LSR, "_run_step_in_context")
     ps = [p for p in flow.paths(outer.node) if p.kind == "return"]
-    ctx.check(len(ps) == 1 and flow.dump(ps[0].value) == "_run_step", "D3", "ORD.driver", "_run_step_in_context returns the step closure", outer, why_bad="changed", construct="_run_step_in_context")
+    ctx.check(flow.values_match(ps, "_run_step"), "D3", "ORD.driver", "_run_step_in_context returns the step closure", outer, why_bad="changed", construct="_run_step_in_context")
     n_idx = [x for x in ast.walk(inner.node) if isinstance(x, ast.Name) and len(inner.params) > 1 and x.id == inner.params[1]]
     ctx.check(not n_idx, "D3", "ORD.driver", "the runner's step ignores the time index", inner, why_bad="index-dependent", construct="_run_step:index")
 
